@@ -1499,3 +1499,49 @@ Proof.
         inversion H1; inversion H2; subst; try reflexivity; try discriminate.
   - change (Gi <> G0). exact Gi_neq_G0.
 Qed.
+
+(* ============================================================================================ *)
+(* The computable freshness check implies functional_tables                                      *)
+(* ============================================================================================ *)
+Lemma erase_src_meval : forall (A : alg) (hval jval : label -> aL A),
+  (forall l, hval l = jval l) ->
+  forall e e', erase_src e = erase_src e' -> meval A hval jval e = meval A hval jval e'.
+Proof.
+  intros A hval jval Hs. induction e as [s l|e IH|e IH|e IH|a IHa b IHb]; destruct e' as [s' l'|e'|e'|e'|a' b'];
+    simpl; intros H; try discriminate.
+  - inversion H; subst. destruct s, s'; auto.
+  - inversion H. f_equal. auto.
+  - inversion H. f_equal. auto.
+  - inversion H. f_equal. auto.
+  - inversion H. f_equal; auto.
+Qed.
+
+Lemma cexp_eqb_ceval : forall (A : alg) (hcoef jcoef : cname -> aC A),
+  hcoef "1"%string = c1 A ->
+  forall e e', cexp_eqb e e' = true -> ceval A hcoef jcoef e = ceval A hcoef jcoef e'.
+Proof.
+  intros A hcoef jcoef H1. induction e as [|s c|e IH]; destruct e' as [|s' c'|e']; simpl; intros H;
+    try discriminate; try reflexivity.
+  - destruct s'; [|discriminate]. apply String.eqb_eq in H. subst. simpl. now rewrite H1.
+  - destruct s; [|discriminate]. apply String.eqb_eq in H. subst. simpl. now rewrite H1.
+  - destruct s, s'; simpl in H; try discriminate; apply String.eqb_eq in H; now subst.
+  - destruct s; discriminate.
+  - f_equal. auto.
+Qed.
+
+Theorem tables_check_sound : forall (A : alg) (hval jval : label -> aL A) (hcoef jcoef : cname -> aC A) sgn i g,
+  generate_struct sgn i = Ok g -> tables_check sgn i = true ->
+  (forall l, hval l = jval l) -> hcoef "1"%string = c1 A ->
+  functional_tables A hval jval hcoef jcoef g.
+Proof.
+  intros A hval jval hcoef jcoef sgn i g Hg Hc Hs H1. unfold tables_check in Hc. rewrite Hg in Hc.
+  apply andb_true_iff in Hc. destruct Hc as [Hm Hcc]. split.
+  - intros l e e' He He'. unfold log_functional_syn in Hm.
+    rewrite forallb_forall in Hm. specialize (Hm _ He). rewrite forallb_forall in Hm. specialize (Hm _ He').
+    simpl in Hm. rewrite String.eqb_refl in Hm. simpl in Hm.
+    apply erase_src_meval; [assumption|]. now apply mexp_eqb_eq.
+  - intros c e e' He He'. unfold clog_functional_syn in Hcc.
+    rewrite forallb_forall in Hcc. specialize (Hcc _ He). rewrite forallb_forall in Hcc. specialize (Hcc _ He').
+    simpl in Hcc. rewrite String.eqb_refl in Hcc. simpl in Hcc.
+    now apply cexp_eqb_ceval.
+Qed.
